@@ -5,7 +5,9 @@ package main
 import (
 	"fmt"
 	"go/ast"
+	"go/token"
 	"go/types"
+	"os"
 	"regexp"
 	"sort"
 	"strings"
@@ -17,7 +19,7 @@ var entryPoints = []string{"VM.Eval", "VM.Load", "VM.Call", "VM.Func"}
 
 func init() {
 	register(&propDef{
-		ID: "C03",
+		ID:          "C03",
 		Explanation: "PAN-REGION computes from the SSA/VTA call graph the functions that execute for Eval/Load/Call/Func while no recover() guard is on the stack (U: code of the entry points and of everything they call outside the guards parse, compiler.run, VM.run, VM.Func, including the part of a guard function before its defer) and the functions of the deferred handlers (H). PAN-SITE enumerates, in U, every explicit may-panic construct on the typed AST (index/slice expressions, single-value type assertions, panic/panicf calls, integer division by a non-constant, writes to possibly nil maps, dereference of pointers obtained from map lookups, library calls with a panic precondition, make with a computed size) and discharges each by a local recogniser (range key, counted loop, length guard, sort comparator, Split()[0]) or by a frozen triage entry with a reason; anything else is a violation naming function and expression. PAN-HANDLER does the same inside H, where a panic turns a script error into a host crash. PAN-PREFIX checks every error returned by Eval and Load is fmt.Errorf with a constant format starting `error in <stage>` and wrapping with %w. PAR-ADVANCE proves parser termination by a min-plus path analysis on go/cfg: every CFG cycle of every parser function, and every recursion cycle of the parser's call graph, consumes at least one token, and parser.N is written only by Next and the two rewind sites. TERM-LOOPS checks every other loop of tokenizer, loader, tree sort, compiler and optimiser is of a catalogue shape with an evident variant, and that the compiler's recursion descends the token tree. Not decided: resource exhaustion (Go stack overflow by deeply nested input or script recursion, OOM), hangs inside the standard library, host-supplied fs.FS/option functions.",
 		Assumptions: []string{
 			"the standard library does not panic on arguments that satisfy its documented preconditions; text/scanner terminates",
@@ -32,6 +34,7 @@ func init() {
 			{"PAN-SITE", 20, rulePanSite},
 			{"PAN-HANDLER", 3, rulePanHandler},
 			{"PAN-CONVERT", 4, rulePanConvert},
+			{"TREE-NONNIL", 7, ruleTreeNonNil},
 			{"PAN-PREFIX", 8, rulePanPrefix},
 			{"PAR-ADVANCE", 40, ruleParAdvance},
 			{"TERM-LOOPS", 15, ruleTermLoops},
@@ -122,6 +125,8 @@ func (c *Ctx) regionSites(which string) ([]*panSite, error) {
 				s.Why = c.dischargeIndex(s, body)
 			case "deref-field", "deref-maplookup":
 				s.Why = c.dischargeNilChecked(s, body)
+			case "panic":
+				s.Why = c.dischargeNilParamPanic(f, s, body, set, ri.Guards)
 			}
 			out = append(out, s)
 		}
@@ -351,4 +356,125 @@ func rulePanConvert(c *Ctx, r *R) {
 	if n < 4 {
 		r.undecided("convert", "-", fmt.Sprintf("only %d recover guards found (expected parse, compiler.run, VM.run, VM.Func)", n))
 	}
+}
+
+// dischargeNilParamPanic: a panic that is the body of `if p == nil { .. }` for a parameter p
+// (tested before p is assigned) states a precondition of the function. It cannot fire in
+// the region when every call of the function made from a function of the region passes a
+// value that is never nil: an allocation, or the result of a function all of whose returns
+// are such values.
+func (c *Ctx) dischargeNilParamPanic(f *ssa.Function, s *panSite, body ast.Node, set map[*ssa.Function]string, guards []*guardInfo) string {
+	var ifs *ast.IfStmt
+	child := s.Node
+	for p := c.Parent(s.Node); p != nil && p != body; child, p = p, c.Parent(p) {
+		if x, ok := p.(*ast.IfStmt); ok && x.Body == child {
+			if ifs != nil {
+				return ""
+			}
+			ifs = x
+		}
+		switch p.(type) {
+		case *ast.ForStmt, *ast.RangeStmt, *ast.SwitchStmt, *ast.FuncLit, *ast.CaseClause:
+			return ""
+		}
+	}
+	if ifs == nil || ifs.Init != nil {
+		return ""
+	}
+	be, ok := unparen(ifs.Cond).(*ast.BinaryExpr)
+	if !ok || be.Op != token.EQL || !isIdent(be.Y, "nil") {
+		return ""
+	}
+	id, ok := unparen(be.X).(*ast.Ident)
+	if !ok {
+		return ""
+	}
+	o := c.Obj(id)
+	idx := -1
+	for i, p := range f.Params {
+		if p.Object() == o {
+			idx = i
+		}
+	}
+	if idx < 0 || c.assignedBefore(body, id.Name, ifs) {
+		return ""
+	}
+	node := c.CallGraph().Nodes[f]
+	if node == nil {
+		return ""
+	}
+	n := 0
+	for _, e := range node.In {
+		if _, in := set[e.Caller.Func]; !in {
+			continue
+		}
+		if e.Site == nil {
+			return ""
+		}
+		// a call under the caller's own recover guard is not a call from the region
+		underGuard := false
+		for _, g := range guards {
+			if g.Fn == e.Caller.Func {
+				b := e.Site.Block()
+				for i, in := range b.Instrs {
+					if in == ssa.Instruction(e.Site) && guardedAt(g, b, i) {
+						underGuard = true
+					}
+				}
+			}
+		}
+		if underGuard {
+			continue
+		}
+		args := e.Site.Common().Args
+		if e.Site.Common().IsInvoke() || len(args) != len(f.Params) {
+			return ""
+		}
+		if !neverNil(args[idx], 0) {
+			if os.Getenv("GOATCHECK_DEBUG") != "" {
+				fmt.Fprintf(os.Stderr, "nil-precondition: %s called from %s with %T %s\n", f.Name(), e.Caller.Func.Name(), args[idx], args[idx])
+			}
+			return ""
+		}
+		n++
+	}
+	return fmt.Sprintf("precondition %s != nil: each of the %d calls made from the region passes a fresh allocation", id.Name, n)
+}
+
+// neverNil: the SSA value is an allocation, or comes only from allocations.
+func neverNil(v ssa.Value, depth int) bool {
+	if depth > 4 {
+		return false
+	}
+	switch x := v.(type) {
+	case *ssa.Alloc:
+		return true
+	case *ssa.MakeMap, *ssa.MakeSlice, *ssa.MakeClosure, *ssa.Function:
+		return true
+	case *ssa.Phi:
+		for _, e := range x.Edges {
+			if !neverNil(e, depth+1) {
+				return false
+			}
+		}
+		return true
+	case *ssa.Call:
+		g := x.Common().StaticCallee()
+		if g == nil || g.Blocks == nil || g.Signature.Results().Len() != 1 {
+			return false
+		}
+		rets := 0
+		for _, b := range g.Blocks {
+			for _, in := range b.Instrs {
+				if r, ok := in.(*ssa.Return); ok {
+					rets++
+					if len(r.Results) != 1 || !neverNil(r.Results[0], depth+1) {
+						return false
+					}
+				}
+			}
+		}
+		return rets > 0
+	}
+	return false
 }
